@@ -100,6 +100,11 @@ def check(m, run):
     c17.ag5(m, run)
     wn1(m, run)
     off1(m, run)
+    from . import c12
+    c12.foreign_cache_in(m, run, 'elements', ('self._data',))
+    exporters = [m.func('exchange.' + n) for n in ('export_obj_str', 'export_off_str', 'export_stl_str')]
+    ra.axk_keyword_suffix(m, run, exporters)
+    run.floor('AXK.keyword-axis', 6, 'sample sizes copied per direction in the three mesh exporters')
     try:
         from .. import skel_drivers
         skel_drivers.c15(m, run)
